@@ -504,11 +504,18 @@ func buildFieldType(ww *conversionVisitor, node sourcewalk.FieldNode) (*descript
 
 		if st.Float.ListRules != nil {
 			ww.file.ensureImport(j5ListAnnotationsImport)
-			proto.SetExtension(desc.Options, list_j5pb.E_Field, &list_j5pb.FieldConstraint{
+			constraint := &list_j5pb.FieldConstraint{
 				Type: &list_j5pb.FieldConstraint_Float{
 					Float: st.Float.ListRules,
 				},
-			})
+			}
+			if st.Float.Format == schema_j5pb.FloatField_FORMAT_FLOAT64 {
+				// a double field, the annotation has a member per proto type
+				constraint.Type = &list_j5pb.FieldConstraint_Double{
+					Double: st.Float.ListRules,
+				}
+			}
+			proto.SetExtension(desc.Options, list_j5pb.E_Field, constraint)
 		}
 
 		return desc, nil
@@ -862,6 +869,14 @@ func buildFieldType(ww *conversionVisitor, node sourcewalk.FieldNode) (*descript
 
 		ww.setJ5Ext(node.Source, desc.Options, "timestamp", st.Timestamp.Ext)
 
+		if st.Timestamp.ListRules != nil {
+			proto.SetExtension(desc.Options, list_j5pb.E_Field, &list_j5pb.FieldConstraint{
+				Type: &list_j5pb.FieldConstraint_Timestamp{
+					Timestamp: st.Timestamp.ListRules,
+				},
+			})
+		}
+
 		if st.Timestamp.Rules != nil {
 			rules := &validate.FieldConstraints{
 				Type: &validate.FieldConstraints_Timestamp{
@@ -887,6 +902,14 @@ func buildFieldType(ww *conversionVisitor, node sourcewalk.FieldNode) (*descript
 				},
 			},
 		})
+
+		if st.Any.ListRules != nil {
+			proto.SetExtension(desc.Options, list_j5pb.E_Field, &list_j5pb.FieldConstraint{
+				Type: &list_j5pb.FieldConstraint_Any{
+					Any: st.Any.ListRules,
+				},
+			})
+		}
 
 		return desc, nil
 	default:
